@@ -48,6 +48,8 @@
    kind 8 (extra stream: NoiseContext::with_prologue + get_remote_peer_id, the WebRTC caller,
    against a snow responder; the two prologues are computed from fingerprints by each side):
      case   8 n params.. | L payload | L remote_static | L prologue_litep2p | L prologue_remote
+            | short prefix extra                           the reply handed to get_remote_peer_id: cut to one
+                                                           byte? / the two-byte prefix / bytes appended
             | curve table | ed25519 table
      trace  8 | class [L id] | miss
    kind 4 (negotiate_connection over loopback TCP, honest peers):
@@ -124,7 +126,7 @@ Record k7 := mkK7 {
   k7_ext : list xext; k7_spki : bytes; k7_inter : N; k7_exp : option bytes;
   k7_curve : list (bytes * bool); k7_ver : list (bytes * bytes * bytes * bool)
 }.
-Record k8 := mkK8 { k8_c : k1; k8_proI : bytes; k8_proR : bytes }.
+Record k8 := mkK8 { k8_c : k1; k8_proI : bytes; k8_proR : bytes; k8_short : bool; k8_prefix : N; k8_extra : N }.
 Record k9 := mkK9 { k9_dialed : option bytes; k9_reported : bytes }.
 
 Inductive case :=
@@ -166,8 +168,9 @@ Definition p_case : parser case :=
          pret (C7 (mkK7 x spki n e cv vt))
   | 9 => let* d := pOpt in let* r := pL in pret (C9 (mkK9 d r))
   | 8 => let* pb := pL in let* rs := pL in let* pi := pL in let* pr := pL in
+         let* sh := pBool in let* px := pN in let* ex := pN in
          let* cv := plist p_curve in let* vt := plist p_ver in
-         pret (C8 (mkK8 (mkK1 pb rs None cv vt) pi pr))
+         pret (C8 (mkK8 (mkK1 pb rs None cv vt) pi pr sh px ex))
   | 4 => let* a := pL in let* b := pL in let* x := pOpt in let* y := pOpt in
          pret (C4 (mkK4 a b x y))
   | _ => pfail
@@ -491,7 +494,12 @@ Definition run8 (c : k8) : list N :=
   let L := mkParty 2 4 (k1_pb k) None (k8_proR c) in
   let a2 := DMsg (l_msg2 H_inst KDF_inst pk dhf L (d_msg1 pk D)) in
   let '(_, oD) := d_run (curve_of k) (verify_of k) H_inst KDF_inst pk dhf D a2 in
-  8 :: enc_outcome oD ++ [b2n (k1_miss k)].
+  (* get_remote_peer_id: a reply of fewer than two bytes is InvalidReplyLength (class 10); the
+     two-byte prefix only sizes the output buffer (too small for the payload: snow refuses) and
+     ALL the bytes behind it are the Noise message (anything appended breaks the last tag) *)
+  if k8_short c then [8; 10; b2n (k1_miss k)]
+  else if (k8_prefix c <? len (k1_pb k)) || (0 <? k8_extra c) then [8; 2; b2n (k1_miss k)]
+  else 8 :: enc_outcome oD ++ [b2n (k1_miss k)].
 
 (* the public API: the listener reports nothing unless the connection was established *)
 Definition run6 (c : k4) : list N :=
